@@ -356,6 +356,18 @@ func Deliverables(cfg *fedlab.Config, u *fedlab.Universe, req *fedlab.Request, o
 // non-empty representation lists of the request; a root request has no representations and is
 // taken whole when pred(0, "", -1, nil, nil) holds; alias is the response key of the _entities field).
 func DeliverablesWhere(cfg *fedlab.Config, u *fedlab.Universe, req *fedlab.Request, pred func(group int, alias string, i int, rep *fedlab.J, e *fedlab.Entity) bool) ([]Pair, error) {
+	return deliverablesWhere(cfg, u, req, pred, false)
+}
+
+// RepMemberSelections: the (entity, field) pairs a request SELECTS although the field is a member of the
+// representation (a key field such as `id`, asked for again because the planner serves a response position --
+// `al2: id` -- from this request).  Not deliverables in the data-flow sense (the value is known before the
+// request), but the response position is filled from this request's answer and is null when it fails.
+func RepMemberSelections(cfg *fedlab.Config, u *fedlab.Universe, req *fedlab.Request, pred func(group int, alias string, i int, rep *fedlab.J, e *fedlab.Entity) bool) ([]Pair, error) {
+	return deliverablesWhere(cfg, u, req, pred, true)
+}
+
+func deliverablesWhere(cfg *fedlab.Config, u *fedlab.Universe, req *fedlab.Request, pred func(group int, alias string, i int, rep *fedlab.J, e *fedlab.Entity) bool, repMembers bool) ([]Pair, error) {
 	groups, err := ParseRequest(req.Query)
 	if err != nil {
 		return nil, err
@@ -364,7 +376,7 @@ func DeliverablesWhere(cfg *fedlab.Config, u *fedlab.Universe, req *fedlab.Reque
 	group := 0
 	for _, g := range groups {
 		if g.Alias == "" && g.RepsVar == "" {
-			if pred(0, "", -1, nil, nil) {
+			if !repMembers && pred(0, "", -1, nil, nil) {
 				for _, f := range g.Fields[""] {
 					out = append(out, Pair{cfg.Super.Query, "", f})
 				}
@@ -398,7 +410,7 @@ func DeliverablesWhere(cfg *fedlab.Config, u *fedlab.Universe, req *fedlab.Reque
 					continue
 				}
 				for _, f := range fields {
-					if rep.Get(f) != nil {
+					if (rep.Get(f) != nil) != repMembers {
 						continue
 					}
 					out = append(out, Pair{e.Type, e.Key, f})
